@@ -90,6 +90,24 @@ Definition eval_points_are_projected : bool :=
                     | Some a => prefix "self.model.as_absolute_coordinates(" (a_value a) || prefix "control.model.as_absolute_coordinates(" (a_value a)
                     | None => false end) eval_sites &&
   Z.leb 11 (Z.of_nat (List.length eval_sites)).
+(* the list built in solve() (user sets, box last) is the one every run projects onto: each solve_main(...) call in solve(), the
+   Controller(...) call in solve_main and the Model(...) call in Controller.__init__ pass it on by name, and the Model constructor
+   stores it (the positions are checked against the callee's parameter list by C03_runs_start_with_the_callers_counters) *)
+Definition passes_projections (c : csite) : bool := mem "projections" (c_args c) || mem "projections=projections" (c_args c).
+Definition projections_reach_every_run : bool :=
+  let sm := filter (fun c => streq (c_func c) "solve") (calls_of T_calls "solve_main") in
+  let ct := filter (fun c => streq (c_func c) "solve_main") (calls_of T_calls "Controller") in
+  let md := filter (fun c => streq (c_func c) "Controller.__init__") (calls_of T_calls "Model") in
+  Nat.eqb (List.length sm) 3 && Nat.eqb (List.length ct) 1 && Nat.eqb (List.length md) 1 &&
+  forallb passes_projections (sm ++ ct ++ md) &&
+  (* the only write of a .projections attribute anywhere is the constructor's unconditional self.projections = projections *)
+  match filter (fun a => streq (a_name a) "projections" && negb (streq (a_target a) "projections")) T_assigns with
+  | [a] => streq (a_func a) "Model.__init__" && streq (a_target a) "self.projections" && streq (a_value a) "projections" &&
+           match a_guards a with [] => true | _ => false end
+  | _ => false end &&
+  negb (existsb (fun a => streq (a_file a) "solver" && streq (a_func a) "solve_main" && streq (a_name a) "projections") T_assigns).
+Theorem C09_the_projection_list_reaches_every_run : projections_reach_every_run = true.
+Proof. vm_compute. reflexivity. Qed.
 Theorem C09_every_evaluated_point_is_projected : eval_points_are_projected = true.
 Proof. vm_compute. reflexivity. Qed.
 Theorem C09_box_is_projected_last : box_appended_last = true.
@@ -103,5 +121,6 @@ Print Assumptions C09_eval_point_is_dykstra_output.
 Print Assumptions C09_box_last_exact.
 Print Assumptions C09_tolerance_bound.
 Print Assumptions C09_every_evaluated_point_is_projected.
+Print Assumptions C09_the_projection_list_reaches_every_run.
 Print Assumptions C09_box_is_projected_last.
 Print Assumptions C09_x0_is_projected.
